@@ -5,37 +5,26 @@ From QwtModel Require Import ListX Consts SelTable Words RSQ LeavesSB LeavesLib.
 Open Scope N_scope.
 
 (* ------------------------------------------------------------------ SuperblockPlain::get_rank *)
-(* FINDING: for block_id >= 12 the source evaluates `data >> ((block_id - 1) * 12)` with a shift amount
-   >= 128 (Fault Overflow: panic with overflow checks, masked shift otherwise); the hand model
-   sb_get_rank returns a value there.  All callers pass block_index & 7. *)
+(* For block_id >= 12 the source evaluates `data >> ((block_id - 1) * 12)` with a shift amount >= 128
+   (Fault Overflow: panic with overflow checks, masked shift otherwise).  The hand model sb_get_rank used
+   to return a value there (T3 finding); it now carries every check and truncation of the source, and the
+   equality holds for every block_id of the parameter type. *)
 Theorem g_sb_get_rank_ok : forall ws symbol block_id,
-  Forall (fun w => w < 2 ^ 128) ws -> symbol < 256 -> block_id <= 11 ->
+  Forall (fun w => w < 2 ^ 128) ws -> symbol < 256 -> block_id < 2 ^ 64 ->
   g_sb_get_rank ws symbol block_id = sb_get_rank ws symbol block_id.
 Proof.
-  intros ws symbol b HF _ Hb.
+  intros ws symbol b _ _ _.
   unfold g_sb_get_rank, sb_get_rank, SB_SHIFT_GR, BLK_BITS_GR, BLK_MASK_GR. cbv zeta.
-  obind_as data E. pose proof (uidx_Forall _ _ _ _ HF E) as Hd. cbv beta in Hd.
-  assert (Hsb : N.shiftr data 84 < 2 ^ 44) by (apply shiftr_lt; exact Hd).
-  rewrite (N.mod_small (N.shiftr data 84)) by lia.
-  unfold osub, omul, oshr, oadd.
-  assert (Hl : forall x, N.land x 4095 < 2 ^ 12) by (intros x; apply (land_ones_lt x 12)).
-  destruct (N.ltb_spec 0 b); cbv beta iota.
-  - repeat (ocase; rewrite ?land_mod_low).
-    all: try (pose proof (Hl (N.shiftr data ((b - 1) * 12))); lia).
-    reflexivity.
-  - repeat (ocase; rewrite ?land_mod_low).
-    all: replace b with 0 by lia; try reflexivity.
+  repeat obind. reflexivity.
 Qed.
 
 Theorem g_sb_get_superblock_counter_ok : forall ws symbol,
   Forall (fun w => w < 2 ^ 128) ws -> symbol < 256 ->
   g_sb_get_superblock_counter ws symbol = sb_get_superblock_counter ws symbol.
 Proof.
-  intros ws symbol HF _.
+  intros ws symbol _ _.
   unfold g_sb_get_superblock_counter, sb_get_superblock_counter, SB_SHIFT_GC.
-  obind_as data E. pose proof (uidx_Forall _ _ _ _ HF E) as Hd. cbv beta in Hd.
-  assert (Hsb : N.shiftr data 84 < 2 ^ 44) by (apply shiftr_lt; exact Hd).
-  now rewrite N.mod_small by lia.
+  obind. reflexivity.
 Qed.
 
 
